@@ -189,7 +189,9 @@ class Solver:
 
         self._compute_powertrain_inertia()
         if self.__powertrain.time:
-            initial_time = self.__powertrain.time[-1]
+            initial_time = self.__powertrain.time[-1].to(
+                time_discretization.unit
+            )
             final_time = initial_time + simulation_time + time_discretization
         else:
             initial_time = Time(value=0, unit=time_discretization.unit)
